@@ -5,7 +5,7 @@ from vf import oracle
 
 
 def container_run(layout, alloc, r0=0, d0=1, m0=None, r1=0, d1=1, m1=None, r2=0, d2=1, m2=None,
-                  r3=0, d3=1, m3=None, cap=400, K=14, tps=1, want=""):
+                  r3=0, d3=1, m3=None, cap=400, K=14, tps=1, perm=None, chains=False, want=""):
     """layout: list of operators, each a list of segment slots (0..3); slot k uses (r_k, d_k, m_k):
     read GB, baseline CPU seconds ('const' law, 1 CPU, 1 tick/s), fixed memory or None (growing)."""
     reset_globals()
@@ -14,12 +14,23 @@ def container_run(layout, alloc, r0=0, d0=1, m0=None, r1=0, d1=1, m1=None, r2=0,
     p = Pipeline("p", Priority.BATCH_PIPELINE)
     ops = []
     prev = None
-    for segs in ops_segs:
-        op = p.new_operator([prev] if prev is not None else None)
+    for idx, segs in enumerate(ops_segs):
+        if perm is None:
+            parents = [prev] if prev is not None else None           # a chain, assigned in chain order
+        elif chains and idx >= 2:
+            parents = [ops[idx - 2]]                                  # two chains 0->2, 1->3 (roots created first)
+        else:
+            parents = None                                            # independent operators
+        op = p.new_operator(parents)
         for (r, d, m) in segs:
             op.add_segment(Segment(baseline_cpu_seconds=d, cpu_scaling="const", memory_gb=m, storage_read_gb=r))
         ops.append(op)
         prev = op
+    if perm is not None:
+        # the order in which the operators are assigned (a valid dependency order that need not be the order of creation /
+        # of DAG iteration): the container runs them one after another in exactly this order
+        ops = [ops[i] for i in perm]
+        ops_segs = [ops_segs[i] for i in perm]
     ticks = oracle.plan(ops_segs, tps)
     oom_at, total = oracle.run_plan(ticks, alloc)
     if total > K:
